@@ -171,6 +171,7 @@ def stored_row(w, nid, v, tag):
 def run_filter(ctx, w, fe, state, announced, stored):
     """one execution of the real function; returns (result kind, ids requested as list of (id, old_local_id is Some))"""
     state['rows'] = stored
+    state.setdefault('tables', {'_node_deletion_log': []})      # no tombstones in the C03 scenarios (C11 supplies them)
     ids = MapV([[x, Cell(UNIT)] for x in announced], is_set=True)
     res = ctx.exec_fn(fe, [Ref(Cell(ids), True), Ref(Cell(Opaque('connection')))])
     if not (isinstance(res, Enum) and res.vname == 'Ok'):
